@@ -1750,6 +1750,7 @@ pub fn generate(data: &[u8], cfg: &GenCfg) -> Generated {
         env.mems.push(gen_mem(ch, feats, false));
     }
     let mut ref_funcs: Vec<u32> = Vec::new();
+    let mut body_refs: Vec<u32> = Vec::new();
     let n_local_globals = ch.below(6);
     let mut global_inits: Vec<ConstInit> = Vec::new();
     for _ in 0..n_local_globals {
@@ -1868,16 +1869,6 @@ pub fn generate(data: &[u8], cfg: &GenCfg) -> Generated {
                 }
             }
         };
-        if let ElemItemsG::Funcs(fs) = &items {
-            ref_funcs.extend(fs.iter().copied());
-        }
-        if let ElemItemsG::Exprs(_, xs) = &items {
-            for x in xs {
-                if let ConstInit::RefFunc(f) = x {
-                    ref_funcs.push(*f);
-                }
-            }
-        }
         env.elems.push(item_ty);
         elems.push(ElemG { mode, items });
     }
@@ -1954,13 +1945,14 @@ pub fn generate(data: &[u8], cfg: &GenCfg) -> Generated {
         agg.nonzero_table |= st.nonzero_table;
         agg.uses_data_ops |= st.uses_data_ops;
         agg.big_offset |= st.big_offset;
-        ref_funcs.extend(st.ref_funcs.iter().copied());
+        body_refs.extend(st.ref_funcs.iter().copied());
         bodies.push((groups, items));
     }
     // ref.func in code requires the function to be declared somewhere outside
     // code: add one declared (or passive) element segment listing them all
     let code_refs: Vec<u32> = {
-        let mut v = ref_funcs.clone();
+        let _ = &ref_funcs;
+        let mut v = body_refs.clone();
         v.sort();
         v.dedup();
         v
@@ -2025,7 +2017,7 @@ pub fn generate(data: &[u8], cfg: &GenCfg) -> Generated {
         let n = 1 + ch.below(5);
         let names = [
             "custom", "", "names", ".debu", "producer", "linking", "target_features", "ünï", "custom", "sourceMappingURL",
-            "reloc.CODE", "dylink.0",
+            "reloc.CODE", "dylink.0", "reloc..debug_info", "_.debug", "name ", "Name", "producers\0",
         ];
         for _ in 0..n {
             let slot = ch.below(14);
